@@ -160,8 +160,15 @@ def main(tier="quick"):
                 a = rows_key(o.jobs[0].events[-1]) if len(o.jobs[0].events) == len(r["history"]) else None
                 b = rows_key(o.jobs[1].events[0])
                 if a == b:
-                    raise RuntimeError(f"harness: history dependence did not reproduce standalone: {r}")
-                r["standalone_confirmed"] = True
+                    if str(b)[:200] != r["fresh"]:
+                        # the very same event, alone in a job, gave other rows in the batch process than it gives now: the rows
+                        # are not a function of the event at all (storage read before it is written) - as bad as history dependence
+                        r["standalone_confirmed"] = "rows-not-reproducible"
+                        r["fresh_again"] = str(b)[:200]
+                    else:
+                        raise RuntimeError(f"harness: history dependence did not reproduce standalone: {r}")
+                else:
+                    r["standalone_confirmed"] = True
         rep.violation(f"{r['backend']}-{i}", f"rows of event {r['event']} depend on history {r['history']} [{r['backend']}]: {r['query'][:240]} :: fresh={r['fresh'][:120]} in-history={r['in_history'][:120]}", r)
     rep.set("states", stats["positions"])
     rep.set("transitions", stats["positions"])
